@@ -53,7 +53,8 @@ Fu8s == [v \in 1..256 |-> [fam |-> "C14", kind |-> "fu8", v |-> v - 1, valid |->
 
 \* ---- payloader scenarios ----
 MtuSeq == SetToSeq(Mtus)
-SizesFor(m) == SetToSeq({ n \in {3, m - 4, m - 3, m - 2, m - 1, m, m + 1, m + 2, 2 * m - 2, 2 * m, 2 * m + 2} : n >= 3 })
+\* around one, two and three fragment capacities (capacity = m - 3, or m - 5 with DONL; two bytes of unit header)
+SizesFor(m) == SetToSeq({ n \in {3} \cup ((m - 4)..(m + 2)) \cup ((2 * m - 9)..(2 * m + 2)) \cup ((3 * m - 14)..(3 * m - 4)) : n >= 3 })
 PayCase(mi, j) ==
   LET m == MtuSeq[mi]  sz == SizesFor(m)
       donl == j % 2 = 1  skip == (j \div 2) % 2 = 1  a == sz[((j \div 4) % Len(sz)) + 1]  sc == (j \div (4 * Len(sz))) % 3
